@@ -16,6 +16,7 @@ import (
 
 	codectypes "github.com/cosmos/cosmos-sdk/codec/types"
 	sdk "github.com/cosmos/cosmos-sdk/types"
+	gethcrypto "github.com/ethereum/go-ethereum/crypto"
 	"golang.org/x/crypto/sha3"
 
 	"github.com/EscanBE/evermint/v12/crypto/ethsecp256k1"
@@ -354,8 +355,24 @@ func (e *c19Env) evalFlip(c c19FlipCase) (fs []ev.Finding, class string) {
 	e.run.Count("evaluations", 1)
 	var addrPanic string
 	if c.What == "pubkey" {
-		addrPanic = c19Trap(func() { _ = pk.Address() })
+		// the address of the ORIGINAL key is requested first (as a node that has seen the neighbouring key before would have), then the
+		// address of the modified key: when the modified bytes are a valid compressed point its address must be Keccak(X||Y)[12:] of
+		// exactly that point — computed here with go-ethereum's decompression, independently of PubKey.Address()
+		var got []byte
+		addrPanic = c19Trap(func() {
+			_ = c.Key.priv().PubKey().Address()
+			got = pk.Address().Bytes()
+		})
 		e.run.Count("evaluations", 1)
+		if addrPanic == "" {
+			if pt, derr := gethcrypto.DecompressPubkey(pk.Bytes()); derr == nil && pt != nil {
+				wantAddr := gethcrypto.PubkeyToAddress(*pt).Bytes()
+				e.run.Count("modified_public_keys_on_the_curve", 1)
+				if !bytes.Equal(got, wantAddr) {
+					fail("address-is-last-20-bytes-of-keccak-of-uncompressed-key", fmt.Sprintf("key %s with public-key bit %d flipped (still a point of the curve), address requested after the address of the original key: got %x want %x", c.Key.Name, c.Bit, got, wantAddr))
+				}
+			}
+		}
 	}
 	desc := fmt.Sprintf("key %s, %s signature over %s, %s bit %d: verified=%v want=%v", c.Key.Name, c.Kind, c.Msg, c.What, c.Bit, got, want)
 	if p != "" || addrPanic != "" {
